@@ -52,14 +52,15 @@ theorem line_eval_partial (s : Sum F) (c : Cfg F) (vs : Vars F)
     ∃ ast, parseLine vs (missingTokenAdder s.toks) = .ok (ast, vs) ∧
       exec c vs ast = .ok (.item (.number s.value .decimal), vs) := by
   refine ⟨s.ast, ?_, Sum.exec_ast c.rates (convForCalc c) vs s⟩
-  have hna : s.toks.findIdx? (fun t => t.isOpOf .assign) = none := by
-    rw [List.findIdx?_eq_none_iff]
+  have hna : s.toks.any (fun t => t.isOpOf .assign) = false := by
+    rw [List.any_eq_false]
     intro t ht
     simp [Sum.not_assign s t ht]
   rw [post_stable s h]
   unfold parseLine
   rw [hna]
   simp only [Sum.parseExpr_toks s]
+  simp
 
 /-- operands written side by side without an operator are added (left to right) -/
 theorem adjacent_add (v : F) (rest : List F) (rates : List (String × F))
